@@ -41,6 +41,16 @@ claim("C06", "model_checking",
       "TLA+ contract spec (Simplify.tla over Tree.tla) model-checked by TLC over input/output pairs of "
       "the real simplify_ast; inputs are TLC-generated behaviours of TreeGen.tla")
 
+claim("C05", "model_checking",
+      "every phase up to the size bound (TLC-enumerated behaviours of PhaseGen.tla: all dependency sets, "
+      "guards, loop nests, no-ops) and phases built by the real CodeBuilder are lowered by the real "
+      "create_ast_from_phase in several container orders and hash seeds; TLC judges each tree under every "
+      "guard valuation (exactly the enabled statements once, declared loops, dependency order, order "
+      "independence)",
+      "trusted: tree exporter; guards are flags constant during a pass; hash seeds sample set orders",
+      "TLA+ contract spec (Lower.tla over Tree.tla) model-checked by TLC over trees exported from the "
+      "real lowering; inputs are TLC-generated behaviours of PhaseGen.tla / ProgGen.tla")
+
 NOT_YET = "check not built yet (work in progress, see DESIGN.md section 11)"
 NOT_APPLICABLE = {}
 
